@@ -247,10 +247,16 @@ fn run_scenario(sc: &Scenario) -> Vec<Failure> {
                 fails.push(Failure { check: "out-of-sync-stops-the-step", props: "C18",
                     detail: format!("lag {:?} > tolerance {:?}: OutOfSync returned={}, executor runs {}, executed {}", sc.lag, sc.tolerance, ok, runs, log.len()) });
             }
-            if !sim.is_terminated {
+            if ok && !sim.is_terminated {
                 fails.push(Failure { check: "out-of-sync-terminates", props: "C11", detail: "OutOfSync did not terminate the simulation".into() });
             }
         }
+        return fails;
+    }
+    if matches!(res, Err(ExecutionError::OutOfSync(_))) {
+        // no tolerance configured, or a lag within it: lags are to be ignored (C18)
+        fails.push(Failure { check: "out-of-sync-without-cause", props: "C18",
+            detail: format!("OutOfSync returned although lag {:?} does not exceed tolerance {:?}", sc.lag, sc.tolerance) });
         return fails;
     }
     if res.is_err() {
